@@ -757,6 +757,19 @@ pub fn run(ctx: &RunCtx, flavor: Flavor) -> Report {
         })
         .collect();
     let mut foreign_tokens: Vec<Vec<u8>> = vec![];
+    // a vetoed sender may claim anything, e.g. the server's own (public) node id
+    if let Some(vip) = veto {
+        if cfg.chance(1, 2) {
+            sim.want_snapshot(server);
+            sim.run_for(600 * MS);
+            if let Some(sn) = sim.snapshot(server) {
+                for c in clients.iter_mut().filter(|c| *c.addr.ip() == vip) {
+                    c.id = sn.id;
+                }
+                report.probe("vetoed_client_claims_server_id", 1);
+            }
+        }
+    }
 
     // ---- object universe
     let keys: Vec<_> = (0..3).map(|i| krpc::signing_key(crate::rng::Rng::new(ctx.seed ^ (i + 77)).bytes(32).try_into().unwrap())).collect();
@@ -993,7 +1006,16 @@ pub fn run(ctx: &RunCtx, flavor: Flavor) -> Report {
                         let mut target = krpc::mutable_target(&pk, salt.as_deref());
                         let seq = r.range(0, 5) as i64;
                         let mut v = values[r.usize(0, if flavor == Flavor::C04 { 2 } else { 3 })].clone();
-                        let variant = if flavor == Flavor::C04 { r.below(30) + 6 } else { r.below(14) };
+                        // (C04: mostly valid items; 1 in 8 with a bad signature / wrong target, which must leave the store as it is)
+                        let variant = if flavor == Flavor::C04 {
+                            if r.chance(1, 8) {
+                                2 + r.below(4)
+                            } else {
+                                r.below(30) + 6
+                            }
+                        } else {
+                            r.below(14)
+                        };
                         let mut l = String::from("valid");
                         if variant == 0 {
                             v = vec![1u8; 1001];
@@ -1037,9 +1059,11 @@ pub fn run(ctx: &RunCtx, flavor: Flavor) -> Report {
                     2 => {
                         let ih = info_hashes[r.usize(0, 3)];
                         let port = r.range(1, 65535) as u16;
-                        let implied = match r.below(3) {
+                        // BEP5: any non-zero value means "use the source port"
+                        let implied = match r.below(5) {
                             0 => Some(1),
                             1 => Some(0),
+                            2 => Some(*r.pick(&[2i64, 3, 7, 128, 255])),
                             _ => None,
                         };
                         let rid = if r.chance(1, 2) { c.id } else { r.id() };
